@@ -243,7 +243,7 @@ def run_shard(spec, seed, tier):
                 else:
                     out.append(f)
             return out
-        n = 150 if tier == "quick" else 1500
+        n = 150 if tier == "quick" else 3000
         found = core.hyp_search(strat, cbody, seed, n, shrink_budget_s=30)
         if found:
             res.failures.extend(found)
@@ -260,7 +260,7 @@ def run_shard(spec, seed, tier):
             else:
                 out.append(f)
         return out
-    n = 400 if tier == "quick" else 2500
+    n = 400 if tier == "quick" else 5000
     # multiplexer cases are selected by name: a key inside a case's range other than its lower limit is not
     # recoverable from the decoded value, i.e. not canonical in the sense of the statement
     found = core.hyp_search(gen.message_case(opts={"mux_by_name_only": True, "mux_default": False}), body, seed, n, shrink_budget_s=30)
